@@ -2,10 +2,10 @@
 # Verify every finished seeder output under /tmp/seed-Cxx (ids Cxx-1/2) and /tmp/seed2-Cxx (ids Cxx-3/4)
 # that is not stored yet; remove the seeder worktree once both of its changes are stored or rejected twice.
 cd /verif
-for d in /tmp/seed-C* /tmp/seed2-C* /tmp/seed3-C* /tmp/seed4-C* /tmp/seed5-C* /tmp/seed6-C* /tmp/seed7-C* /tmp/seed8-C* /tmp/seed9-C* /tmp/seed10-C* /tmp/seed11-C*; do
+for d in /tmp/seed-C* /tmp/seed2-C* /tmp/seed3-C* /tmp/seed4-C* /tmp/seed5-C* /tmp/seed6-C* /tmp/seed7-C* /tmp/seed8-C* /tmp/seed9-C* /tmp/seed10-C* /tmp/seed11-C* /tmp/seed12-C*; do
   [ -d "$d/seed_out" ] || continue
   p=$(basename $d | sed "s/seed[0-9]*-//")
-  off=0; case $d in /tmp/seed2-*) off=2;; /tmp/seed3-*) off=4;; /tmp/seed4-*) off=6;; /tmp/seed5-*) off=8;; /tmp/seed6-*) off=10;; /tmp/seed7-*) off=12;; /tmp/seed8-*) off=14;; /tmp/seed9-*) off=16;; /tmp/seed10-*) off=18;; /tmp/seed11-*) off=20;; esac
+  off=0; case $d in /tmp/seed2-*) off=2;; /tmp/seed3-*) off=4;; /tmp/seed4-*) off=6;; /tmp/seed5-*) off=8;; /tmp/seed6-*) off=10;; /tmp/seed7-*) off=12;; /tmp/seed8-*) off=14;; /tmp/seed9-*) off=16;; /tmp/seed10-*) off=18;; /tmp/seed11-*) off=20;; /tmp/seed12-*) off=22;; esac
   [ -f "$d/seed_out/1/notes.md" ] && [ -f "$d/seed_out/2/notes.md" ] && [ -f "$d/seed_out/1/patch.diff" ] && [ -f "$d/seed_out/2/patch.diff" ] || continue
   for i in 1 2; do
     n=$((i+off))
